@@ -13,6 +13,9 @@ EMBED = {  # point id -> coordinates (1-d and 2-d embeddings; the second one mak
     "1d": lambda k: [float(k)],
     "2d": lambda k: [float(k % 2), float(k // 2)],
     "2d-neg": lambda k: [-0.5 * k, 0.25],
+    # distinct points that differ by a relative 1e-6 / an absolute 1e-9 only: equality of points is exact equality
+    "1d-big": lambda k: [1e6 + k],
+    "2d-tiny": lambda k: [1e6 + (k % 2), 1e-9 * (k // 2)],
 }
 
 
